@@ -448,6 +448,34 @@ pub fn run(ctx: &Ctx, rep: &mut Report) {
     let l = t.pick(5, 7);
     let total = 1 + 96 * (4 + tails_upto(l));
     ctx.enumerate(rep, "decode-exhaustive", total, 500, |i| nth_string(i, l), check_decode);
+    // field sizes the random generator does not reach: payloads around the 16-bit boundary and well above it, in every frame kind
+    // that carries one (PROTOCOL.md puts no limit on them)
+    const BIGLEN: [usize; 7] = [65_534, 65_535, 65_536, 65_537, 100_000, (1 << 20) + 3, (3 << 20) + 1];
+    ctx.enumerate(
+        rep,
+        "large-payloads",
+        (BIGLEN.len() * 6) as u64,
+        6,
+        |i| {
+            let n = BIGLEN[(i % 7) as usize];
+            let data: Vec<u8> = (0..n).map(|k| (k as u32).wrapping_mul(2_654_435_761).to_le_bytes()[1]).collect();
+            let spec = match i / 7 {
+                0 => FSpec::PushBorrowed { id: 7, data },
+                1 => FSpec::PushOwned { id: 7, data },
+                2 => FSpec::PushVectored { id: 7, chunks: vec![(false, data[..n / 2].to_vec()), (true, data[n / 2..].to_vec())] },
+                3 => FSpec::PushVectored { id: 7, chunks: vec![(true, vec![1, 2, 3]), (false, data), (true, vec![])] },
+                4 => FSpec::DatagramBorrowed { id: 9, port: 53, host: b"big.example".to_vec(), data },
+                _ => FSpec::DatagramOwned { id: 9, port: 53, host: vec![], data },
+            };
+            EncCase { spec, extra: vec![] }
+        },
+        |c| {
+            let mut o = check_encode(c);
+            o.nontrivial = true;
+            o.classes.push("payload-64KiB-to-3MiB");
+            o
+        },
+    );
     ctx.prop(
         rep,
         "decode-mutations",
